@@ -5,7 +5,7 @@
 (*  dot(x_a,x_b)) that is the value the direct callback returns.           *)
 (*  Also: iterations of the `omp parallel for` over i write disjoint cells.*)
 (* ====================================================================== *)
-From Coq Require Import List Arith Bool Lia.
+From Coq Require Import List Arith Bool Lia ZArith.
 From TK Require Import Cli_Model.
 Import ListNotations.
 
@@ -111,3 +111,57 @@ Section Pre.
     destruct H1 as [<-|[<-|[]]]; destruct H2 as [E|[E|[]]]; injection E as E1 E2; lia.
   Qed.
 End Pre.
+
+(* ---------------------------------------------------------------------- *)
+(*  the two direct callbacks of eigen_callbacks.hpp are symmetric:         *)
+(*  kernel(a,b) = x_a . x_b ,  distance(a,b) = sqrt((x_a - x_b).(x_a - x_b))*)
+(*  (coordinates as integers = dyadic doubles scaled; sqrt is a value      *)
+(*  oracle applied to the symmetric squared distance.  In binary64 the two *)
+(*  symmetries hold bit for bit as well: x*y = y*x and (x-y)^2 = (y-x)^2   *)
+(*  are exact identities of IEEE arithmetic and the summation order is the *)
+(*  same.)                                                                 *)
+(* ---------------------------------------------------------------------- *)
+Local Open Scope Z_scope.
+
+Fixpoint dotZ (u v : list Z) : Z :=
+  match u, v with
+  | x :: u', y :: v' => x * y + dotZ u' v'
+  | _, _ => 0
+  end.
+
+Fixpoint sqdistZ (u v : list Z) : Z :=
+  match u, v with
+  | x :: u', y :: v' => (x - y) * (x - y) + sqdistZ u' v'
+  | _, _ => 0
+  end.
+
+Lemma dotZ_comm : forall u v, dotZ u v = dotZ v u.
+Proof.
+  induction u as [|x u IH]; destruct v as [|y v]; cbn; try reflexivity.
+  rewrite IH. ring.
+Qed.
+
+Lemma sqdistZ_comm : forall u v, sqdistZ u v = sqdistZ v u.
+Proof.
+  induction u as [|x u IH]; destruct v as [|y v]; cbn; try reflexivity.
+  rewrite IH. ring.
+Qed.
+
+Theorem precompute_kernel_same : forall (X : nat -> list Z) (N a b : nat),
+  (a < N)%nat -> (b < N)%nat ->
+  precomputed Z (fun a b => dotZ (X a) (X b)) true N a b = Some (dotZ (X a) (X b)).
+Proof.
+  intros X N a b Ha Hb.
+  apply (precompute_same Z (fun a b => dotZ (X a) (X b))); [|exact Ha|exact Hb].
+  intros x y. apply dotZ_comm.
+Qed.
+
+Theorem precompute_distance_same : forall (S : Type) (sqrt_oracle : Z -> S) (X : nat -> list Z) (N a b : nat),
+  (a < N)%nat -> (b < N)%nat ->
+  precomputed S (fun a b => sqrt_oracle (sqdistZ (X a) (X b))) true N a b
+  = Some (sqrt_oracle (sqdistZ (X a) (X b))).
+Proof.
+  intros S sqrt_oracle X N a b Ha Hb.
+  apply (precompute_same S (fun a b => sqrt_oracle (sqdistZ (X a) (X b)))); [|exact Ha|exact Hb].
+  intros x y. f_equal. apply sqdistZ_comm.
+Qed.
